@@ -476,6 +476,85 @@ pub fn touching_circles_family() -> Vec<String> {
     v
 }
 
+/// shapes with something attached (a circle, an arc or a box with a line on its left, right or below), each
+/// drawn once, and two or three times at different positions of one page (equal shapes at different places)
+pub fn repeated_tailed_family() -> Vec<String> {
+    let cat = catalog();
+    let mut singles: Vec<String> = vec![];
+    for art in cat.iter().take(7) {
+        let (w, h) = crate::enumr::extent(art);
+        let mid = (h / 2) as i32;
+        for side in 0..3 {
+            let mut cv = Canvas::new();
+            match side {
+                0 => {
+                    cv.paste(0, 0, art);
+                    cv.text(w as i32, mid, "---");
+                }
+                1 => {
+                    cv.paste(3, 0, art);
+                    cv.text(0, mid, "---");
+                }
+                _ => {
+                    cv.paste(0, 0, art);
+                    cv.put(w as i32 / 2, h as i32, '|');
+                    cv.put(w as i32 / 2, h as i32 + 1, '|');
+                }
+            }
+            singles.push(cv.render());
+        }
+    }
+    singles.push("+--+\n|  |---\n+--+".to_string());
+    singles.push(" .-\n(\n `---".to_string());
+    let mut v = vec![];
+    for d in &singles {
+        let (w, h) = crate::enumr::extent(d);
+        let (w, h) = (w as i32, h as i32);
+        v.push(d.clone());
+        for (dx, dy) in [(w + 2, 0), (0, h + 1), (w + 3, h + 2), (w + 1, 1), (1, h + 1)] {
+            let mut cv = Canvas::new();
+            cv.paste(0, 0, d);
+            cv.paste(dx, dy, d);
+            v.push(cv.render());
+        }
+        let mut cv = Canvas::new();
+        cv.paste(0, 0, d);
+        cv.paste(w + 2, 1, d);
+        cv.paste(2 * w + 4, 2, d);
+        v.push(cv.render());
+    }
+    v
+}
+
+/// rows of 2..3 copies of one small catalogue circle (or two different ones), touching or one column apart:
+/// one span holding several circle drawings, of which only the first is recognised at the first attempt
+pub fn circle_rows_family() -> Vec<String> {
+    let cat = catalog();
+    let mut v = vec![];
+    for i in 0..cat.len().min(6) {
+        for j in 0..cat.len().min(6) {
+            if j != i && j > 1 {
+                continue;
+            }
+            for n in 2..=3usize {
+                for gap in 0..=1usize {
+                    let mut cv = Canvas::new();
+                    let mut x = 0i32;
+                    for k in 0..n {
+                        let art = if k % 2 == 0 { &cat[i] } else { &cat[j] };
+                        cv.paste(x, 0, art);
+                        x += crate::enumr::extent(art).0 as i32 + gap as i32;
+                    }
+                    v.push(cv.render());
+                }
+            }
+        }
+    }
+    v.sort();
+    v.dedup();
+    v
+}
+
 /// every catalogue circle with one of its cells blanked (yields three-quarter, half and quarter arcs with remains)
 pub fn circle_defect_family(max_width: usize) -> Vec<String> {
     let mut v = vec![];
